@@ -55,6 +55,7 @@ type Contract struct {
 	IntNames []string // variables of a bit-vector type that are nevertheless kept as integers (counters, indices)
 	Lets     []LetClause
 	Uses     []Clause
+	Checks   []Clause // intermediate assertions at the return points (local scope)
 	LoopUses map[string][]Clause
 	Specialize map[string][]string
 	SpecConsts map[string][]int64 // named constants with a finite list of values (one verification each)
@@ -223,7 +224,7 @@ func (u *Universe) loadDeps(dir string) error {
 
 var clauseWords = map[string]bool{"requires": true, "ensures": true, "modifies": true, "panics": true,
 	"loop": true, "repr": true, "inline": true, "props": true, "opaque": true, "unroll": true, "note": true, "induct": true, "cover": true,
-	"bv": true, "intvar": true, "theory": true, "returns": true, "decreases": true, "fieldmode": true, "variant": true, "let": true, "use": true, "noframe": true, "borrowed": true, "specialize": true}
+	"bv": true, "intvar": true, "theory": true, "returns": true, "decreases": true, "fieldmode": true, "variant": true, "let": true, "use": true, "check": true, "noframe": true, "borrowed": true, "specialize": true}
 
 func (u *Universe) parseContractFile(path, pkgPath string, deps bool) error {
 	data, err := os.ReadFile(path)
@@ -274,6 +275,8 @@ func (u *Universe) parseContractFile(path, pkgPath string, deps bool) error {
 					curC.FieldMode = &cc
 				case "use":
 					curC.Uses = append(curC.Uses, cl)
+				case "check":
+					curC.Checks = append(curC.Checks, cl)
 				case "loopuse":
 					curC.LoopUses[p.loop] = append(curC.LoopUses[p.loop], cl)
 				case "loopexitassert":
@@ -622,6 +625,12 @@ func (u *Universe) parseContractFile(path, pkgPath string, deps bool) error {
 		case "use":
 			s := rest
 			pend = append(pend, pending{kind: "use", text: &s, line: where})
+			lastClause = pend[len(pend)-1].text
+		case "check":
+			// check EXPR: an intermediate assertion over the local variables at every return point
+			// (after the use clauses, before the postconditions): proved, then assumed
+			s := rest
+			pend = append(pend, pending{kind: "check", text: &s, line: where})
 			lastClause = pend[len(pend)-1].text
 		case "let":
 			// let NAME = arg(CALLEE, occ, idx)
